@@ -106,6 +106,24 @@ instance (g : Graph) (i : Nat) (slot : PkgSlot) : Decidable (SlotOk g i slot) :=
   unfold SlotOk
   cases slot.pkg <;> infer_instance
 
+theorem inv_iff (ctx : Ctx) (g : Graph) : Inv ctx g ↔
+    ((∀ e ∈ g.edges, EdgeOk ctx g e) ∧ (g.edges.filterMap Edge.argKey).Nodup ∧
+     (∀ n ∈ List.range g.nodes.length, ∀ nd ∈ g.node? n, NodeOk g n nd) ∧
+     (g.exports.map (·.1)).Nodup ∧ (∀ e ∈ g.exports, ∃ nd ∈ g.node? e.2, nd.exp.isSome = true) ∧
+     (g.imports.map (·.1)).Nodup ∧ (∀ e ∈ g.imports, ∃ nd ∈ g.node? e.2, nd.kind = .import e.1) ∧
+     (g.defined.map (·.1)).Nodup ∧ (∀ e ∈ g.defined, ∃ nd ∈ g.node? e.2, nd.kind = .definition e.1) ∧
+     (g.pkgMap.map (·.1)).Nodup ∧ (∀ e ∈ g.pkgMap, ∃ pd ∈ (g.pkgOf e.2).toOption, pd.key = e.1) ∧
+     (∀ i ∈ List.range g.pkgs.length, ∀ slot ∈ g.pkgs[i]?, SlotOk g i slot) ∧
+     g.freePkgs.Nodup ∧ (∀ i ∈ g.freePkgs, i < g.pkgs.length) ∧
+     g.freeNodes.Nodup ∧ (∀ i ∈ g.freeNodes, i < g.nodes.length ∧ g.node? i = none) ∧
+     (∀ i ∈ List.range g.nodes.length, g.node? i = none → i ∈ g.freeNodes)) :=
+  ⟨fun h => ⟨h.1, h.2, h.3, h.4, h.5, h.6, h.7, h.8, h.9, h.10, h.11, h.12, h.13, h.14, h.15, h.16, h.17⟩,
+   fun ⟨h1, h2, h3, h4, h5, h6, h7, h8, h9, h10, h11, h12, h13, h14, h15, h16, h17⟩ =>
+     ⟨h1, h2, h3, h4, h5, h6, h7, h8, h9, h10, h11, h12, h13, h14, h15, h16, h17⟩⟩
+
+instance (ctx : Ctx) (g : Graph) : Decidable (Inv ctx g) :=
+  decidable_of_iff _ (inv_iff ctx g).symm
+
 /-- names of the violated conjuncts (for the driver's report) -/
 def invReport (ctx : Ctx) (g : Graph) : List String :=
   let c (b : Bool) (s : String) : List String := if b then [] else [s]
